@@ -227,8 +227,9 @@ pub fn c12(a: &Args) {
         while set.len() < 270 + 40 * big { let mut c = cl(&[1]); while c.len() < 4 { let v = 2 + rng.below(n as usize - 1) as i32; if c.contains(&v) || c.contains(&-v) { continue; } c.insert(if rng.chance(0.5) { v } else { -v }); } set.insert(c); }
         starts.push((n, set.into_iter().collect(), "large".into()));
     }
-    for (n, cls, origin) in &starts {
-        let text = cnf_text(*n, cls);
+    for (si, (n, cls, origin)) in starts.iter().enumerate() {
+        // every fifth start CNF is written with two clauses on some lines (the format is a stream of numbers)
+        let text = if si % 5 == 4 && cls.len() >= 2 && origin != "large" { ctx.out.count("start_cnf_two_clauses_on_a_line", 1); crate::refcomp::cnf_text_layout(*n, cls, 2) } else { cnf_text(*n, cls) };
         let mut d = match load_cnf(&ctx.dir, &text) {
             Ok(d) => d,
             Err(e) => { ctx.out.fail("cnf-load-panic", &text, "load", &format!("panic: {e}"), "a model"); continue; }
